@@ -28,6 +28,8 @@ def cfg_fn(r, i):
         lines.append("align_assign_span=2\nalign_var_def_span=2")
     if r.random() < 0.3:
         lines.append("indent_continue=%d" % r.choice([2, 4, 6]))
+    if r.random() < 0.3:
+        lines.append("indent_single_newlines=true")          # blank lines are indented: the one case where a line may end in white space
     return "\n".join(lines) + "\n", "iwt%d" % iwt
 
 
@@ -102,6 +104,15 @@ def oracle(R, findings):
                 first = c
                 break
         else:
+            # a blank line that was indented on request (indent_single_newlines): written for a NEWLINE chunk outside directives,
+            # its white space follows indent_with_tabs
+            ws = [c for c in chars if c[1] == "NEWLINE" and not c[3]]
+            if ws and len(ws) == len(chars):
+                s_ = "".join(chr(c[0]) for c in ws)
+                if iwt == 0 and "\t" in s_:
+                    findings.append(("lead-tab|blank-line", "indent_with_tabs=0 but the indented blank line %d contains a tab: %r" % (n + 1, s_)))
+                if iwt in (1, 2) and " \t" in s_:
+                    findings.append(("space-tab|blank-line", "indent_with_tabs=%d but a space precedes a tab on the indented blank line %d: %r" % (iwt, n + 1, s_)))
             continue
         if first[1] in rc.OPAQUE:
             continue
